@@ -168,9 +168,35 @@ func (r *result) parsedResponse(l *Loader) (*astjson.Value, error) {
 		if err != nil {
 			return nil, err
 		}
+		if !validNumbers(parsed, make([]byte, 0, 32)) {
+			return nil, errInvalidNumberToken
+		}
 		r.parsed = parsed
 	}
 	return r.parsed, nil
+}
+
+var errInvalidNumberToken = goerrors.New("invalid JSON: number token")
+
+// validNumbers reports whether every number in v is an RFC 8259 number token. The parser is
+// lenient (NaN, inf, +1, 01, 1. and .5 parse as numbers) and the token is written to the client
+// verbatim, so such a subgraph body must count as invalid JSON.
+func validNumbers(v *astjson.Value, buf []byte) bool {
+	switch v.Type() {
+	case astjson.TypeNumber:
+		return astjson.ValidateBytes(v.MarshalTo(buf[:0])) == nil
+	case astjson.TypeArray:
+		for _, e := range v.GetArray() {
+			if !validNumbers(e, buf) {
+				return false
+			}
+		}
+	case astjson.TypeObject:
+		ok := true
+		v.GetObject().Visit(func(_ []byte, e *astjson.Value) { ok = ok && validNumbers(e, buf) })
+		return ok
+	}
+	return true
 }
 
 // responseErrors returns the subgraph errors to merge for this result: a multi
